@@ -83,6 +83,10 @@ class BloomSuite(Suite):
         n = 60 if tier == "quick" else 1500
         for i in range(n):
             seqs.append(self.gen_one(rng, big=(i % 15 == 14)))
+        # results of set operations on nearly empty filters: their elements_added is an estimate that truncates
+        # to 0 while cells are set, so no code path may take "count is 0" for "structure is empty"
+        for i in range(10 if tier == "quick" else 150):
+            seqs.append(self.gen_sparse(rng))
         # malformed constructor stream
         bad = []
         for est, fpr in [(0, 0.05), (-3, 0.05), (10, 0.0), (10, 1.0), (10, 1.5), (10, -0.1), (10, 1e-60), (1, 0.9999), (3, 0.99)]:
@@ -147,6 +151,28 @@ class BloomSuite(Suite):
             # malformed stream: a hash list shorter than number_hashes. Only the error kind is compared, and it
             # is the last operation of the sequence: what a rejected call leaves behind is outside every property
             seq.append(("addalt-short", rng.choice(sorted(have)), [rng.randrange(2**64) for _ in range(rng.choice([0, 1]))], 1))
+        return seq
+
+    def gen_sparse(self, rng):
+        kind = rng.choice(self.kinds)
+        est, fpr = rng.choice([(1, 0.3), (2, 0.3), (2, 0.1), (3, 0.2), (4, 0.05), (5, 0.1)])
+        strat = rng.choice(["fnv", "fnv", "md5", "custom", "dint:fnvseed"])
+        u = make_universe(rng, 8)
+        seq = [("new", 1, kind, est, fpr, strat), ("new", 2, kind, est, fpr, strat), ("new", 5, kind, est, fpr, strat)]
+        seq.append(self.gen_add(rng, 1, u[0], kind))
+        seq.append(self.gen_add(rng, 2, u[1], kind))
+        if rng.random() < 0.5:
+            seq.append(self.gen_add(rng, 2, u[0], kind))
+        seq.append(("inter", 3, 1, 2))
+        seq.append(("union", 6, 1, 5))  # the filter fed one key, united with an empty one
+        tail = []
+        for r in (3, 6):
+            tail += [("stats", r), ("chk", r, u[0]), ("chk", r, u[1]), ("union", 4, 2, r), ("union", 4, r, 2), ("union", 4, 5, r), ("union", 4, r, 5), ("jacc", 4, r, 5), ("jacc", 4, 5, r),
+                     ("inter", 4, r, 1), ("export", r, rng.choice(["bytes", "hex", "file"])), ("load", 4, rng.choice(["bytes", "hex", "file"]), r), ("chk", 4, u[0])]
+        rng.shuffle(tail)
+        seq += tail
+        for r in (3, 6):
+            seq += [("clear", r), ("stats", r), ("chk", r, u[0]), self.gen_add(rng, r, u[2], kind), ("chk", r, u[2]), ("chk", r, u[0])]
         return seq
 
     def gen_add(self, rng, h, key, kind):
